@@ -2,6 +2,7 @@ package gedcom
 
 import (
 	"fmt"
+	"sync"
 )
 
 // DateNode represents a DATE node.
@@ -13,6 +14,10 @@ type DateNode struct {
 	// Dates are expensive to parse so we should not attempt to parse the value
 	// until it is needed. Also, if we have already parsed the value once it
 	// should not be parsed again.
+	//
+	// The mutex makes it safe for several goroutines to ask for the date range
+	// of the same node (like the workers of a comparison or when publishing).
+	parseMutex      sync.Mutex
 	alreadyParsed   bool
 	parsedDateRange DateRange
 }
@@ -20,8 +25,7 @@ type DateNode struct {
 // NewDateNode creates a new DATE node.
 func NewDateNode(value string, children ...Node) *DateNode {
 	return &DateNode{
-		newSimpleNode(TagDate, value, "", children...),
-		false, DateRange{},
+		SimpleNode: newSimpleNode(TagDate, value, "", children...),
 	}
 }
 
@@ -31,17 +35,16 @@ func (node *DateNode) DateRange() (dateRange DateRange) {
 		return NewZeroDateRange()
 	}
 
+	node.parseMutex.Lock()
+	defer node.parseMutex.Unlock()
+
 	// Parsing dates is very expensive. Cache them.
-	if node.alreadyParsed {
-		return node.parsedDateRange
+	if !node.alreadyParsed {
+		node.parsedDateRange = NewDateRangeWithString(node.Value())
+		node.alreadyParsed = true
 	}
 
-	defer func(node *DateNode) {
-		node.parsedDateRange = dateRange
-		node.alreadyParsed = true
-	}(node)
-
-	return NewDateRangeWithString(node.Value())
+	return node.parsedDateRange
 }
 
 // String returns the date range as defined in the specification of DateNode.
